@@ -254,8 +254,10 @@ Section Analyse.
     match reset_gen fixedF2 (a_maps (sast S)) (added S) (removed S) with
     | None => None
     | Some rr =>
-        (* reset_affected *)
-        let memo1 := filter (fun e => negb (mem_uid (fst e) (rr_all rr))) (a_memo (sast S)) in
+        (* reset_affected: `get_unit(unit_id)` looks the unit up by library and key, so the unit
+           that lives in the slot of an affected id loses its result, whatever its kind *)
+        let memo1 := filter (fun e => negb (mem_slot (u_slot (fst e)) (map u_slot (rr_all rr))))
+                            (a_memo (sast S)) in
         let todo := filter (fun x => match memo_get memo1 x with Some _ => false | None => true end)
                            (unit_ids (units S)) in
         Some (rr, memo1, todo)
